@@ -156,7 +156,7 @@ CHECKS["C03"] = dict(
     assumptions=["fiber context, backend and XML/JSON decoding are models", "the table backend-method -> required S3 action (harness/tree/s3api/zz_vf_access.go) "
                  "follows the AWS action names; look-ups a route makes for its own decisions are whitelisted explicitly"],
     outside=["headers outside the stated set", "ListBuckets ownership filter is checked under C16 (H16b-listbuckets); the GET / route handler itself is not in the route table of H03b",
-             "admin API on its own port (NewAdminServer wiring)", "native replay (the stand-ins exist only in the engine)"],
+             "the role gate of a separate admin server is reached through H02c-admin (C02, NewAdminServer wiring); H03c-admin runs the admin routes as S3ApiRouter.Init registers them", "native replay (the stand-ins exist only in the engine)"],
 )
 
 CHECKS["C10"] = dict(
